@@ -70,6 +70,8 @@ def validate(rep, pid, tier):
         rep.add_tlc('MCRegTree_' + a, r, 'model checking of ScpiRegTree: TreeCoherent, MssCoherent, RisesHaveMss, FilterLatch, EventSticky, RiseAnnounced, MasksOnlyWritten, StandardAgreement (with ScpiStatus)')
         if r.violations:
             rep.broken.append('ScpiRegTree violates %s in MCRegTree_%s' % (r.violations, a))
+        if a == 'T4':
+            continue        # model-checked only: its 1.9x10^7 implementation transitions would take an hour to validate
         g = lib.tlc('GenRegTreeOps', 'GenRegTreeOps_%s.cfg' % a, workers=1, env={'OUT': w + '/ops.ndjson'}, timeout=120)
         if g.rc != 0:
             rep.broken.append('GenRegTreeOps failed'); continue
